@@ -634,3 +634,41 @@ Proof.
     destruct Hi' as (Hports & _). rewrite Forall_forall in Hports. apply Hports. exact Hin. }
   split; [exact Hall|]. intros Hso. split; assumption.
 Qed.
+
+Lemma run_state_inv es : forall i i', inst_inv i -> Forall event_valid es -> run_state i es = Some i' -> inst_inv i'.
+Proof.
+  induction es as [|e es IH]; intros i i' Hi Hes Hrun; cbn [run_state] in Hrun; [inversion Hrun; subst; exact Hi|].
+  inversion Hes as [|? ? He Hes']; subst. destruct (step_ok i e Hi He) as (i1 & o1 & Hs & Hi1 & _). rewrite Hs in Hrun.
+  exact (IH i1 i' Hi1 Hes' Hrun).
+Qed.
+
+(** In a settled instance a port is MASTER for good once a BMCA run finds it
+    neither LISTENING nor FAULTY, or its announce receipt timer fires while it is
+    not FAULTY - whatever silent events come before and after. *)
+Theorem settled_reach_master es1 e es2 i i' n :
+  inst_inv i -> Forall event_valid (es1 ++ e :: es2) -> forallb silent_event (es1 ++ e :: es2) = true -> settled i ->
+  run_state i (es1 ++ e :: es2) = Some i' ->
+  (forall i1 pp1, run_state i es1 = Some i1 -> nth_error (i_ports i1) n = Some pp1 ->
+     (e = EvBmca /\ is_faulty (p_state pp1) = false /\ is_listening (p_state pp1) = false) \/
+     (e = EvAnnounceReceiptTimer n /\ is_faulty (p_state pp1) = false)) ->
+  forall pp', nth_error (i_ports i') n = Some pp' -> p_state pp' = PMaster.
+Proof.
+  intros Hi Hes Hsil Hset Hrun Hcond pp' Hn'.
+  apply Forall_app in Hes as [Hes1 Hes2]. inversion Hes2 as [|? ? He Hes2']; subst.
+  rewrite forallb_app in Hsil. apply andb_true_iff in Hsil as [Hs1 Hs2]. cbn [forallb] in Hs2. apply andb_true_iff in Hs2 as [Hse Hs2].
+  destruct (run_state_app es1 (e :: es2) i i' Hrun) as (i1 & Hr1 & Hr2).
+  pose proof (run_state_inv es1 i i1 Hi Hes1 Hr1) as Hi1.
+  destruct (settled_run es1 i i1 Hi Hes1 Hs1 Hset Hr1) as (Hset1 & Hl1 & _).
+  cbn [run_state] in Hr2. destruct (step_ok i1 e Hi1 He) as (i2 & o2 & Hs & Hi2 & _). rewrite Hs in Hr2.
+  destruct (settled_step i1 e i2 o2 Hi1 He Hse Hset1 Hs) as (Hset2 & Hl2 & Hm2).
+  destruct (settled_run es2 i2 i' Hi2 Hes2' Hs2 Hset2 Hr2) as (_ & Hl' & Hm').
+  destruct (nth_error (i_ports i2) n) as [pp2|] eqn:Hn2;
+    [|apply nth_error_None in Hn2; assert (n < length (i_ports i'))%nat by (apply nth_error_Some; rewrite Hn'; discriminate); lia].
+  destruct (nth_error (i_ports i1) n) as [pp1|] eqn:Hn1;
+    [|apply nth_error_None in Hn1; assert (n < length (i_ports i2))%nat by (apply nth_error_Some; rewrite Hn2; discriminate); lia].
+  destruct (Hm' n pp2 pp' Hn2 Hn') as (Hstay & _). apply Hstay.
+  destruct (Hm2 n pp1 pp2 Hn1 Hn2) as (_ & Hb & Hrt).
+  destruct (Hcond i1 pp1 Hr1 Hn1) as [(-> & Hf & Hl)|(-> & Hf)].
+  - rewrite (Hb eq_refl), Hf, Hl. reflexivity.
+  - exact (Hrt eq_refl Hf).
+Qed.
